@@ -186,6 +186,33 @@ func Inject(r *rng.R, p *Program) (Injection, bool) {
 			ds[0].Fields[0].Label, ds[1].Fields[0].Label = "shared-label", "shared-label"
 			return "the same go.label in two structs", true
 		}},
+		{"same-go-case-types-renamed", "A", func() (string, bool) {
+			// two types whose Thrift names are equal after Go-casing, told apart by
+			// go.name, both used as elements of containers of the same shape
+			for _, f := range p.Files {
+				var ds []*Def
+				for _, d := range f.Defs {
+					if d.Kind == Struct || d.Kind == Union || d.Kind == Exception {
+						ds = append(ds, d)
+					}
+				}
+				if len(ds) < 2 {
+					continue
+				}
+				a, b := ds[0], ds[1]
+				a.Name, a.GoName = "audit_entry", ""
+				b.Name, b.GoName = "AuditEntry", "AuditEntryRow"
+				ref := func(d *Def) *Type { return &Type{K: Named, Ref: d} }
+				h := &Def{File: f, Name: "AuditHost", Kind: Struct, Index: 1 << 20, Fields: []*Field{
+					{ID: 1, Name: "entriesA", Req: Optional, Type: &Type{K: List, Elem: ref(a)}},
+					{ID: 2, Name: "entriesB", Req: Optional, Type: &Type{K: List, Elem: ref(b)}},
+					{ID: 3, Name: "byKeyA", Req: Optional, Type: &Type{K: Map, Key: &Type{K: String}, Elem: ref(a)}},
+					{ID: 4, Name: "byKeyB", Req: Optional, Type: &Type{K: Map, Key: &Type{K: String}, Elem: ref(b)}}}}
+				f.Defs = append(f.Defs, h)
+				return "types audit_entry and AuditEntry (go.name AuditEntryRow) as list and map elements in one file", true
+			}
+			return "", false
+		}},
 		// ---- clashes: thriftrw may reject; if it accepts the output must build ----
 		{"fields-same-go-name", "B", func() (string, bool) {
 			d := in.pickDef(in.structs(2))
